@@ -158,6 +158,14 @@ func (v *PacketDslVisitorImpl) VisitPacketDefinition(ctx *gen.PacketDefinitionCo
 				lengthField = fld
 			}
 
+			if _, dup := fieldMap[fld.Name]; dup {
+				v.BinModel.AddSyntaxError(&model.SyntaxError{
+					Line:   fctx.GetStart().GetLine(),
+					Column: fctx.GetStart().GetColumn(),
+					Msg:    "Duplicate field definition for " + fld.Name + " in packet " + name,
+				})
+				continue
+			}
 			fields = append(fields, fld)
 			fieldMap[fld.Name] = fld
 
@@ -464,6 +472,7 @@ func (v *PacketDslVisitorImpl) VisitMatchFieldDeclaration(ctx *gen.MatchFieldDec
 			})
 			continue
 		}
+		pairsMap[pair.Key] = struct{}{}
 	}
 	return &model.Field{
 		Name:     matchName,
